@@ -15,15 +15,17 @@ VARIABLES pc,          \* control point
           lastKey,     \* treeWriter.lastKey
           hasEntries,  \* treeWriter.hasEntries
           result,      \* the tree behind the returned reference
+          streamOpen,  \* a stream is open on the pdf.Writer: every Put is queued until it is closed
           fed,         \* every key the caller's iterator produced (history)
           m            \* the map the accepted entries describe (history, kept apart from the tree)
-vars == <<pc, pending, tail, lastKey, hasEntries, result, fed, m>>
+vars == <<pc, pending, tail, lastKey, hasEntries, result, streamOpen, fed, m>>
 
 \* the value stored with key k (opaque to the writer)
 ValOf(k) == 1000 + 7 * k
 
 Init == /\ pc = "add" /\ pending = <<>> /\ tail = <<>> /\ lastKey = 0 /\ hasEntries = FALSE
         /\ result = NoTree /\ fed = <<>> /\ m = << >>
+        /\ streamOpen \in BOOLEAN
 
 \* addEntry: the unsorted / duplicate check, then append to the pending leaf
 AddEntry(k) ==
@@ -31,12 +33,12 @@ AddEntry(k) ==
   /\ fed' = Append(fed, k)
   /\ IF hasEntries /\ k <= lastKey
      THEN /\ pc' = "rejected"                        \* errors.New("keys must be in sorted order")
-          /\ UNCHANGED <<pending, tail, lastKey, hasEntries, result, m>>
+          /\ UNCHANGED <<pending, tail, lastKey, hasEntries, result, streamOpen, m>>
      ELSE /\ lastKey' = k /\ hasEntries' = TRUE
           /\ pending' = Append(pending, <<k, ValOf(k)>>)
           /\ m' = (k :> ValOf(k)) @@ m
           /\ pc' = IF Len(pending') >= F THEN "complete" ELSE "add"
-          /\ UNCHANGED <<tail, result>>
+          /\ UNCHANGED <<tail, result, streamOpen>>
 
 \* completePendingLeaf (called from addEntry: "complete", from finish: "fcomplete")
 CompleteLeaf ==
@@ -44,55 +46,55 @@ CompleteLeaf ==
   /\ tail' = Append(tail, ImplLeafInfo(pending))
   /\ pending' = <<>>
   /\ pc' = IF pc = "complete" THEN "merge" ELSE "fmerge"
-  /\ UNCHANGED <<lastKey, hasEntries, result, fed, m>>
+  /\ UNCHANGED <<lastKey, hasEntries, result, streamOpen, fed, m>>
 
 \* mergeTail: one iteration of the loop / leaving the loop
 MergeStep ==
   /\ pc \in {"merge", "fmerge"} /\ ImplMergeEnabled(tail)
   /\ tail' = ImplMergeOnce(tail)
-  /\ UNCHANGED <<pc, pending, lastKey, hasEntries, result, fed, m>>
+  /\ UNCHANGED <<pc, pending, lastKey, hasEntries, result, streamOpen, fed, m>>
 MergeDone ==
   /\ pc \in {"merge", "fmerge"} /\ ~ImplMergeEnabled(tail)
   /\ pc' = IF pc = "merge" THEN "add" ELSE "finish"
-  /\ UNCHANGED <<pending, tail, lastKey, hasEntries, result, fed, m>>
+  /\ UNCHANGED <<pending, tail, lastKey, hasEntries, result, streamOpen, fed, m>>
 
 \* finish, first part: the pending leaf
 FinishRootWithEntries ==                     \* exit 1: only a pending leaf
   /\ pc = "add" /\ pending # <<>> /\ tail = <<>>
   /\ result' = ImplRootWithEntries(pending)
   /\ pc' = "done"
-  /\ UNCHANGED <<pending, tail, lastKey, hasEntries, fed, m>>
+  /\ UNCHANGED <<pending, tail, lastKey, hasEntries, streamOpen, fed, m>>
 FinishCompletePending ==
   /\ pc = "add" /\ pending # <<>> /\ tail # <<>>
   /\ pc' = "fcomplete"
-  /\ UNCHANGED <<pending, tail, lastKey, hasEntries, result, fed, m>>
+  /\ UNCHANGED <<pending, tail, lastKey, hasEntries, result, streamOpen, fed, m>>
 FinishNoPending ==
   /\ pc = "add" /\ pending = <<>>
   /\ pc' = "finish"
-  /\ UNCHANGED <<pending, tail, lastKey, hasEntries, result, fed, m>>
+  /\ UNCHANGED <<pending, tail, lastKey, hasEntries, result, streamOpen, fed, m>>
 \* finish, second part
 FinishEmpty ==                               \* exit 2: no entries, null reference
   /\ pc = "finish" /\ tail = <<>>
   /\ result' = NoTree /\ pc' = "done"
-  /\ UNCHANGED <<pending, tail, lastKey, hasEntries, fed, m>>
+  /\ UNCHANGED <<pending, tail, lastKey, hasEntries, streamOpen, fed, m>>
 FinishSingleLeaf ==                          \* exit 3: one completed leaf under a fresh root
   /\ pc = "finish" /\ Len(tail) = 1 /\ tail[1].depth = 0
-  /\ result' = ImplRootOverKid(tail[1]) /\ pc' = "done"
-  /\ UNCHANGED <<pending, tail, lastKey, hasEntries, fed, m>>
+  /\ result' = FileView(ImplRootOverKid(tail[1]), streamOpen) /\ pc' = "done"
+  /\ UNCHANGED <<pending, tail, lastKey, hasEntries, streamOpen, fed, m>>
 FinishCollapse ==
   /\ pc = "finish" /\ tail # <<>> /\ ~(Len(tail) = 1 /\ tail[1].depth = 0)
   /\ pc' = "collapse"
-  /\ UNCHANGED <<pending, tail, lastKey, hasEntries, result, fed, m>>
+  /\ UNCHANGED <<pending, tail, lastKey, hasEntries, result, streamOpen, fed, m>>
 \* collapse: one iteration (merges the trailing run, or lifts a lone trailing node)
 CollapseStep ==
   /\ pc = "collapse" /\ Len(tail) > 1
   /\ tail' = ImplCollapseOnce(tail)
-  /\ UNCHANGED <<pc, pending, lastKey, hasEntries, result, fed, m>>
+  /\ UNCHANGED <<pc, pending, lastKey, hasEntries, result, streamOpen, fed, m>>
 FinishRoot ==                                \* exit 4: fresh root without /Limits over the collapsed node
   /\ pc = "collapse" /\ Len(tail) = 1
-  /\ result' = IF tail[1].depth > 0 THEN ImplRootOverKid(tail[1]) ELSE tail[1].node
+  /\ result' = FileView(IF tail[1].depth > 0 THEN ImplRootOverKid(tail[1]) ELSE tail[1].node, streamOpen)
   /\ pc' = "done"
-  /\ UNCHANGED <<pending, tail, lastKey, hasEntries, fed, m>>
+  /\ UNCHANGED <<pending, tail, lastKey, hasEntries, streamOpen, fed, m>>
 
 Final == {"done", "rejected"}
 
@@ -109,12 +111,15 @@ Faithful == Accepted => \A k \in Probes : ImplLookup(result, k) = RefLookup(m, k
 FaithfulAnyReader == Accepted => \A k \in Probes : RefTreeLookup(result, k) = RefLookup(m, k)
 Enumerates == Accepted => /\ IsRefAll(m, ImplAll(result))
                           /\ IsRefAll(m, Entries(result))
+\* a consumer of All() that stops at its k-th entry gets the first k entries and nothing more
+EarlyExit == Accepted => LET all == [i \in 1..Len(fed) |-> <<fed[i], m[fed[i]]>>]
+                         IN \A k \in 1..(Len(fed) + 1) : ImplAllStop(result, k) = RefPrefix(all, k)
 ReadersAgree == Accepted => ImplInMemory(result) = m
 EmptyNoTree == Accepted => ((DOMAIN m = {}) <=> (result = NoTree))
 RejectsExactly == /\ (pc = "rejected") => ~RefAccepts(fed)
                   /\ (pc # "rejected") => RefAccepts(fed)
 \* the state machine and the functional form of the writer agree
-MachineIsFunction == /\ Accepted => result = ImplWrite([i \in 1..Len(fed) |-> <<fed[i], ValOf(fed[i])>>])
+MachineIsFunction == /\ Accepted => result = FileView(ImplWrite([i \in 1..Len(fed) |-> <<fed[i], ValOf(fed[i])>>]), streamOpen)
                      /\ (pc = "rejected") = ~ImplAccepts(fed)
 
 \* what collapse's comment assumes about the tail between calls: depths do not
